@@ -3,6 +3,8 @@ package configmgr
 import (
 	"fmt"
 
+	"github.com/veesix-networks/osvbng/pkg/config/subscriber"
+
 	"github.com/veesix-networks/osvbng/pkg/config"
 	"github.com/veesix-networks/osvbng/pkg/config/interfaces"
 )
@@ -45,7 +47,12 @@ func (cd *ConfigManager) LoadStartupConfig(path string) (*config.Config, error) 
 	return cfg, nil
 }
 
-func (cd *ConfigManager) ApplyLoadedConfig() error {
+// noChangesToCommit is the one Commit error after which the loaded
+// configuration is nevertheless the running one: a start-up configuration
+// without any handled path (osvbngd accepts exactly this error).
+const noChangesToCommit = "failed to commit: no changes to commit"
+
+func (cd *ConfigManager) ApplyLoadedConfig() (err error) {
 	cd.mu.RLock()
 	config := cd.startupConfig
 	cd.mu.RUnlock()
@@ -54,11 +61,31 @@ func (cd *ConfigManager) ApplyLoadedConfig() error {
 		return fmt.Errorf("no config loaded, call LoadStartupConfig first")
 	}
 
+	// Nothing is published before it has passed the checks every commit has to
+	// pass: the running configuration and the subscriber-group index are read
+	// lock-free by the data path.
+	if err := validateCandidate(config); err != nil {
+		return fmt.Errorf("pre-commit validation failed: %w", err)
+	}
+
 	cd.mu.Lock()
+	previous := cd.runningConfig
 	cd.runningConfig = config
 	cd.refreshMixedAccessSet()
 	cd.refreshSGSnapshot()
 	cd.mu.Unlock()
+
+	// A start-up that fails must not leave its configuration published.
+	committed := false
+	defer func() {
+		if err != nil && !committed && err.Error() != noChangesToCommit {
+			cd.mu.Lock()
+			cd.runningConfig = previous
+			cd.refreshMixedAccessSet()
+			cd.refreshSGSnapshot()
+			cd.mu.Unlock()
+		}
+	}()
 
 	sessionID, err := cd.CreateCandidateSession()
 	if err != nil {
@@ -82,6 +109,7 @@ func (cd *ConfigManager) ApplyLoadedConfig() error {
 	if err := cd.Commit(sessionID); err != nil {
 		return fmt.Errorf("failed to commit: %w", err)
 	}
+	committed = true
 
 	if !cd.disableVersions && len(cd.versions) > versionsBefore {
 		lastVersion := &cd.versions[len(cd.versions)-1]
@@ -105,4 +133,19 @@ func (cd *ConfigManager) ApplyStartupConfig(path string) error {
 	}
 
 	return cd.ApplyLoadedConfig()
+}
+
+// validateCandidate runs the checks a configuration has to pass before it may
+// become the running one.
+func validateCandidate(cfg *config.Config) error {
+	if err := config.ValidateMSSClampParentMTU(cfg); err != nil {
+		return err
+	}
+	if err := config.ValidateSubscriberGroupVRF(cfg); err != nil {
+		return err
+	}
+	if err := cfg.ValidateBindings(); err != nil {
+		return err
+	}
+	return subscriber.ValidateMatchIndex(cfg.SubscriberGroups)
 }
